@@ -136,6 +136,20 @@ theorem keydownSkill_elapse_ticks (q : KeydownSkill.P) (t : Int) (u : KeydownSki
   · simp only [damageTicks_append, damageTicks_replicate_dealt]
     simp [damageTicks]
 
+/-- `Periodic.set_time_left` keeps `WF` (the new counter is the positive initial counter or the interval) -/
+theorem periodic_setTimeLeft_wf (s s' : Periodic) (t : Int) (hw : s.WF) (h : s.setTimeLeft t = .ok s') : s'.WF := by
+  have hi := hw.1
+  unfold Periodic.setTimeLeft at h
+  split at h
+  · cases h
+  · split at h
+    · split at h
+      · cases h
+      · cases h
+        refine ⟨hi, ?_⟩
+        simp only []; omega
+    · cases h; exact ⟨hi, hi⟩
+
 end Simaple.Comp.Mech
 
 namespace Simaple.Comp
